@@ -1,4 +1,4 @@
-// c05.cpp — harness for C05 (MDS / Kernel PCA).  One case per stdin line:
+// c05.cpp — harness for C05 (MDS / Kernel PCA / Isomap with k = N-1).  One case per stdin line:
 //   DM n <n*n>            distance-callback table (row major; only i<=j is ever asked for):
 //                         compute_distance_matrix -> centerMatrix -> *= -0.5, i.e. the three
 //                         statements of MultidimensionalScalingImplementation::embed() that
@@ -6,31 +6,86 @@
 //                         compute_distance_matrix) and "R mds" (handed to the solver).
 //   KM n <n*n>            kernel-callback table: compute_centered_kernel_matrix.  Prints "R kpca".
 //   CM n <n*n>            centerMatrix on an arbitrary (possibly asymmetric) matrix. "R center".
-//   EMB mds|kpca dense|randomized n d <n*n>
-//                         public API (tapkee::with(...).withDistance/withKernel(...).embedUsing)
-//                         on the precomputed table.  Prints "R emb" (n x d).
-//   EIG n <n*n>           reference Eigen::SelfAdjointEigenSolver eigenvalues, ascending. "R eigvals"
-//   TRI dense|randomized n d <n*n>
-//                         tapkee_internal::eigendecomposition(method, CPU, LargestEigenvalues, M, d)
-//                         on a matrix whose triangles DIFFER.  Prints "R vecs" (n x d), "R vals".
+//   FULL meth solver seed n d k <n*n>
+//                         meth = mds | kpca | isomap | klle ; solver = dense | randomized.
+//                         (1) the matrix the method hands to the solver, built with the same
+//                             internal routines the method calls ("R B"; mds/kpca only; isomap: the
+//                             symmetrised squared geodesics "R geo2" and "R B");
+//                         (2) the oracle call replicated: Eigen::SelfAdjointEigenSolver on
+//                             (B + B^T)/2 exactly as eigendecomposition_impl_dense does
+//                             ("R refvecs", "R refvals", ascending) and std::sqrt of every
+//                             max(eigenvalue, 0) ("R refsqrt");
+//                         (3) the public API: tapkee::with(...).withKernel(..).withDistance(..)
+//                             .embedUsing(indices) on the same table ("R emb").
+//                         std::srand(seed) before (3): the randomized solver draws from std::rand.
+//   EMB  meth solver seed n d k <n*n>     only (3).
+//   TRI dense|randomized largest|smallest seed n d <n*n>
+//                         tapkee_internal::eigendecomposition(method, CPU, Largest/SmallestEigenvalues,
+//                         M, d) on a matrix whose triangles may DIFFER.  Prints "R vecs" (n x d), "R vals".
 //   RAW n <n*n>           Eigen::SelfAdjointEigenSolver on a matrix whose triangles differ
 //                         (oracle contract: which triangle does Eigen read?). "R vecs", "R vals".
-//   KLLE n D d k <n*D>    public API KernelLocallyLinearEmbedding with the linear kernel on the
-//                         given points (smallest-eigenvalue dense site; F7 probe).  "R emb".
 // Numbers are decimal or hex-float on input, hex-float on output.
+// There is exactly ONE embedUsing call site (one instantiation of all methods) to keep the
+// build short.
 #include "spectral_common.hpp"
 
 #include <numeric>
-#include <tapkee/callbacks/eigen_callbacks.hpp>
-#include <tapkee/callbacks/precomputed_callbacks.hpp>
 
 using namespace tapkee;
 using namespace vh;
+
+// callbacks over a table; indices are the "samples"
+struct table_kernel
+{
+    const DenseMatrix* t;
+    inline ScalarType kernel(IndexType a, IndexType b) const
+    {
+        return (*t)(a, b);
+    }
+};
+struct table_distance
+{
+    const DenseMatrix* t;
+    inline ScalarType distance(IndexType a, IndexType b) const
+    {
+        return (*t)(a, b);
+    }
+};
+
+typedef std::vector<IndexType> Idx;
+
+static bool method_of(const std::string& s, DimensionReductionMethod& m)
+{
+    if (s == "mds")
+        m = MultidimensionalScaling;
+    else if (s == "kpca")
+        m = KernelPrincipalComponentAnalysis;
+    else if (s == "isomap")
+        m = Isomap;
+    else if (s == "klle")
+        m = KernelLocallyLinearEmbedding;
+    else
+        return false;
+    return true;
+}
+
+static TapkeeOutput embed_once(const DimensionReductionMethod& m, const std::string& solver, int d, int k,
+                               const DenseMatrix& T, const Idx& idx)
+{
+    table_kernel kcb{&T};
+    table_distance dcb{&T};
+    return tapkee::with((method = m, target_dimension = d, num_neighbors = k, eigen_method = solver_of(solver),
+                         neighbors_method = Brute, check_connectivity = true))
+        .withKernel(kcb)
+        .withDistance(dcb)
+        .embedUsing(idx);
+}
 
 int main()
 {
     std::string line;
     int k = 0;
+    tapkee::Logging::instance().disable_warning();
     while (std::getline(std::cin, line))
     {
         if (line.empty()) continue;
@@ -38,21 +93,21 @@ int main()
         std::string cmd;
         is >> cmd;
         guarded(k, [&]() {
-            if (cmd == "DM" || cmd == "KM" || cmd == "CM" || cmd == "EIG" || cmd == "RAW")
+            if (cmd == "DM" || cmd == "KM" || cmd == "CM" || cmd == "RAW")
             {
                 int n;
                 is >> n;
                 DenseMatrix T;
-                if (n < 0 || n > 4096 || !read_matrix(is, n, n, T))
+                if (!is || n < 0 || n > 4096 || !read_matrix(is, n, n, T))
                 {
                     std::cout << "X " << k << " bad-input" << std::endl;
                     return;
                 }
-                std::vector<IndexType> idx(n);
+                Idx idx(n);
                 std::iota(idx.begin(), idx.end(), 0);
                 if (cmd == "DM")
                 {
-                    precomputed_distance_callback dcb(T);
+                    table_distance dcb{&T};
                     DenseSymmetricMatrix M = tapkee_internal::compute_distance_matrix(idx.begin(), idx.end(), dcb);
                     print_matrix("d2", M);
                     tapkee_internal::centerMatrix(M);
@@ -61,7 +116,7 @@ int main()
                 }
                 else if (cmd == "KM")
                 {
-                    precomputed_kernel_callback kcb(T);
+                    table_kernel kcb{&T};
                     DenseSymmetricMatrix M =
                         tapkee_internal::compute_centered_kernel_matrix(idx.begin(), idx.end(), kcb);
                     print_matrix("kpca", M);
@@ -71,10 +126,6 @@ int main()
                     tapkee_internal::centerMatrix(T);
                     print_matrix("center", T);
                 }
-                else if (cmd == "EIG")
-                {
-                    reference_eig(T);
-                }
                 else
                 {
                     Eigen::SelfAdjointEigenSolver<DenseMatrix> es(T);
@@ -82,74 +133,86 @@ int main()
                     print_vector("vals", es.eigenvalues());
                 }
             }
-            else if (cmd == "EMB")
+            else if (cmd == "FULL" || cmd == "EMB")
             {
                 std::string meth, solver;
-                int n, d;
-                is >> meth >> solver >> n >> d;
+                unsigned seed;
+                int n, d, kk;
+                is >> meth >> solver >> seed >> n >> d >> kk;
                 DenseMatrix T;
-                if (n < 0 || n > 4096 || !read_matrix(is, n, n, T))
+                DimensionReductionMethod m = MultidimensionalScaling;
+                if (!is || !method_of(meth, m) || n < 0 || n > 4096 || !read_matrix(is, n, n, T))
                 {
                     std::cout << "X " << k << " bad-input" << std::endl;
                     return;
                 }
-                std::vector<IndexType> idx(n);
+                Idx idx(n);
                 std::iota(idx.begin(), idx.end(), 0);
-                TapkeeOutput out;
-                if (meth == "mds")
+                if (cmd == "FULL" && meth != "klle")
                 {
-                    precomputed_distance_callback dcb(T);
-                    out = tapkee::with((method = MultidimensionalScaling, target_dimension = d,
-                                        eigen_method = solver_of(solver)))
-                              .withDistance(dcb)
-                              .embedUsing(idx);
+                    DenseSymmetricMatrix B;
+                    if (meth == "mds")
+                    {
+                        table_distance dcb{&T};
+                        B = tapkee_internal::compute_distance_matrix(idx.begin(), idx.end(), dcb);
+                        tapkee_internal::centerMatrix(B);
+                        B.array() *= -0.5;
+                    }
+                    else if (meth == "kpca")
+                    {
+                        table_kernel kcb{&T};
+                        B = tapkee_internal::compute_centered_kernel_matrix(idx.begin(), idx.end(), kcb);
+                    }
+                    else
+                    {
+                        // the statements of IsomapImplementation::embed()
+                        table_distance dcb{&T};
+                        tapkee_internal::PlainDistance<Idx::iterator, table_distance> pd(dcb);
+                        tapkee_internal::Neighbors nb = tapkee_internal::find_neighbors(Brute, idx.begin(), idx.end(), pd,
+                                                                       static_cast<IndexType>(kk), true);
+                        B = tapkee_internal::compute_shortest_distances_matrix(idx.begin(), idx.end(), nb, dcb);
+                        B = B.array().square();
+                        B = (B + B.transpose()).eval() / 2.0;
+                        print_matrix("geo2", B);
+                        tapkee_internal::centerMatrix(B);
+                        B.array() *= -0.5;
+                    }
+                    print_matrix("B", B);
+                    // the oracle call of eigendecomposition_impl_dense, replicated
+                    DenseSymmetricMatrix W = B;
+                    W += W.transpose().eval();
+                    W /= 2.0;
+                    tapkee::DenseSelfAdjointEigenSolver solver_ref(W);
+                    print_matrix("refvecs", solver_ref.eigenvectors());
+                    print_vector("refvals", solver_ref.eigenvalues());
+                    DenseVector sq = solver_ref.eigenvalues();
+                    for (int i = 0; i < sq.size(); i++)
+                        sq(i) = sqrt(std::max<ScalarType>(sq(i), 0.0));
+                    print_vector("refsqrt", sq);
                 }
-                else
-                {
-                    precomputed_kernel_callback kcb(T);
-                    out = tapkee::with((method = KernelPrincipalComponentAnalysis, target_dimension = d,
-                                        eigen_method = solver_of(solver)))
-                              .withKernel(kcb)
-                              .embedUsing(idx);
-                }
+                std::srand(seed);
+                TapkeeOutput out = embed_once(m, solver, d, kk, T, idx);
                 print_matrix("emb", out.embedding);
-                std::cout << "R proj " << (out.projection.implementation ? 1 : 0) << std::endl;
             }
             else if (cmd == "TRI")
             {
-                std::string solver;
+                std::string solver, strat;
+                unsigned seed;
                 int n, d;
-                is >> solver >> n >> d;
+                is >> solver >> strat >> seed >> n >> d;
                 DenseMatrix T;
-                if (n < 0 || n > 4096 || !read_matrix(is, n, n, T))
+                if (!is || n < 0 || n > 4096 || !read_matrix(is, n, n, T))
                 {
                     std::cout << "X " << k << " bad-input" << std::endl;
                     return;
                 }
+                std::srand(seed);
                 tapkee_internal::EigendecompositionResult r = tapkee_internal::eigendecomposition(
-                    solver_of(solver), HomogeneousCPUStrategy, tapkee_internal::LargestEigenvalues, T, d);
+                    solver_of(solver), HomogeneousCPUStrategy,
+                    strat == "smallest" ? tapkee_internal::SmallestEigenvalues : tapkee_internal::LargestEigenvalues, T,
+                    d);
                 print_matrix("vecs", r.first);
                 print_vector("vals", r.second);
-            }
-            else if (cmd == "KLLE")
-            {
-                int n, D, d, kk;
-                is >> n >> D >> d >> kk;
-                DenseMatrix P;
-                if (n < 0 || n > 4096 || D < 0 || D > 4096 || !read_matrix(is, n, D, P))
-                {
-                    std::cout << "X " << k << " bad-input" << std::endl;
-                    return;
-                }
-                DenseMatrix X = P.transpose();   // tapkee: samples are columns
-                std::vector<IndexType> idx(n);
-                std::iota(idx.begin(), idx.end(), 0);
-                eigen_kernel_callback kcb(X);
-                TapkeeOutput out = tapkee::with((method = KernelLocallyLinearEmbedding, target_dimension = d,
-                                                 num_neighbors = kk, eigen_method = Dense))
-                                       .withKernel(kcb)
-                                       .embedUsing(idx);
-                print_matrix("emb", out.embedding);
             }
             else
             {
